@@ -41,7 +41,7 @@ func main() {
 	if *prop == "ALL" {
 		os.Exit(runAll(*tier, *repo, *verif))
 	}
-	check, ok := rules.Registry[*prop]
+	_, ok := rules.Registry[*prop]
 	if !ok {
 		fmt.Fprintf(os.Stderr, "unknown property %q\n", *prop)
 		os.Exit(2)
@@ -92,7 +92,7 @@ func main() {
 			run.Extra["client_packages_not_judged"] = p.Clients
 			ctx := &rules.Ctx{P: p, R: run, Tier: *tier, Depth: depth}
 			ctx.InstallSoften()
-			check(ctx)
+			rules.RunCheck(*prop, ctx)
 			p = nil
 			ctx = nil
 			runtime.GC()
@@ -144,7 +144,7 @@ func runAll(tier, repo, verif string) int {
 			}()
 			cx := &rules.Ctx{P: p, R: run, Tier: tier, Depth: 3}
 			cx.InstallSoften()
-			rules.Registry[id](cx)
+			rules.RunCheck(id, cx)
 		}()
 		if run.Finish() != 0 {
 			rc = 1
